@@ -529,3 +529,8 @@ class World(EventDispatcher):
         self.id_generator = self.id_generator_factory()
 
         super().clear()     # Clear event dispatching system
+
+        # A world is always a handler of itself (see __init__), also
+        # after being cleared: on_add/on_remove postponed while
+        # dispatching is disabled are relayed through it
+        self.add_handler(self)
